@@ -68,6 +68,7 @@ type Hooks struct {
 	OnEnter func(m *Machine, fn *ssa.Function, args []value)
 	OnLeave func(m *Machine, fn *ssa.Function)
 	OnMap   func(m *Machine, mp *mapv, fr *frame)
+	OnLoad  func(m *Machine, addr *value)
 }
 
 type fnInfo struct {
